@@ -14,7 +14,7 @@
 (* The formulas are written independently of the handler definitions: they *)
 (* say what the statement says, not how the handlers achieve it.           *)
 (***************************************************************************)
-EXTENDS Panacea
+EXTENDS Genesis
 
 VARIABLES
     acked,      \* history: records acknowledged so far [o,t,n,key,val,w,ts]
@@ -171,10 +171,20 @@ C03_Step ==
              DidChain(act'.tx.msgs, 1, d, Cell(didReg, d)).okk
 
 \* C04: sequence starts at 0, grows by exactly one per accepted update/deactivation, never otherwise; no accepted message is accepted again
+\* the sequence number an ACCEPTED transaction leaves behind for d, whatever its proofs were: 0 after a create, one more per update/deactivation
+RECURSIVE SeqAfter(_, _, _, _)
+SeqAfter(msgs, i, d, n) ==
+    IF i > Len(msgs) THEN n
+    ELSE LET m == msgs[i] IN
+         IF ~IsDidMsg(m) \/ m.did # d THEN SeqAfter(msgs, i + 1, d, n)
+         ELSE IF m.type = "did.Create" THEN SeqAfter(msgs, i + 1, d, 0)
+         ELSE SeqAfter(msgs, i + 1, d, n + 1)
+
 C04_Step ==
     /\ \A d \in AllDids :
           IF DidTouched(act', d)
-          THEN LET r == DidChain(act'.tx.msgs, 1, d, Cell(didReg, d)) IN r.okk => Cell(didReg', d) = r.c
+          THEN /\ LET r == DidChain(act'.tx.msgs, 1, d, Cell(didReg, d)) IN r.okk => Cell(didReg', d) = r.c
+               /\ Cell(didReg', d).seq = SeqAfter(act'.tx.msgs, 1, d, Cell(didReg, d).seq)
           ELSE Cell(didReg', d).seq = Cell(didReg, d).seq
     /\ DeliverOk(act') => \A i \in MsgIdx(act') : IsDidMsg(act'.tx.msgs[i]) => StripFrom(act'.tx.msgs[i]) \notin accepted
     \* ... nor when the identical outer transaction bytes are delivered again
